@@ -471,6 +471,14 @@ class Sim:
         if self.aborting:
             raise SimAbort()
 
+    def spoint(self, tag='p'):
+        """Scheduling point at the entry of a stub (fake S3, file system, user
+        stream, subscriber).  While an aborted run is being unwound the stub
+        refuses to act: nothing the library still does may leave a trace."""
+        if self.aborting and not self.finished:
+            raise SimAbort()
+        self.point(tag)
+
     def point(self, tag='p'):
         """A scheduling point: any runnable thread may continue from here."""
         if self.aborting or self.in_pred:
